@@ -250,7 +250,24 @@ func (g *G) bodyStmts(retInt bool, depth int) []*N {
 	if g.p.JumpW > 0 {
 		n += g.t.Intn(2)
 	}
+	var lateAssign *N
+	if g.p.JumpW > 0 && g.t.Chance(1, 6) {
+		// a deferred expression that reads a local variable which the body assigns again
+		// afterwards: defers run after the body, in the body's scope as it is then
+		name := g.name("lv")
+		c1 := int64(g.t.Intn(5))
+		out = append(out, &N{K: KAssign, Str: name, A: &N{K: KInt, Int: c1}})
+		out = append(out, &N{K: KDefer, A: &N{K: KIf,
+			A: g.slot("id", "if/then"),
+			B: &N{K: KInfix, Str: "==", A: &N{K: KVar, Str: name}, B: &N{K: KInt, Int: c1}},
+			C: g.slot("id", "if/else")}})
+		lateAssign = &N{K: KAssign, Str: name, A: &N{K: KInt, Int: c1 + 1 + int64(g.t.Intn(3))}}
+	}
 	for i := 0; i < n; i++ {
+		if lateAssign != nil && i == n/2 {
+			out = append(out, lateAssign)
+			lateAssign = nil
+		}
 		if g.p.JumpW > 0 && g.t.Intn(10) < g.p.JumpW {
 			switch g.t.Pick(3, 2, 1) {
 			case 0:
@@ -265,6 +282,9 @@ func (g *G) bodyStmts(retInt bool, depth int) []*N {
 			continue
 		}
 		out = append(out, &N{K: KExprS, A: g.anyExpr(depth, "stmt/expr")})
+	}
+	if lateAssign != nil {
+		out = append(out, lateAssign)
 	}
 	// final statement
 	if retInt {
